@@ -335,7 +335,7 @@ class Ctx:
         cs = M.history_conds(node)
         fs = []
         for e, pol in cs:
-            f = to_formula(e, sub)
+            f = to_formula(M.resolve(e), sub)
             fs.append(f if pol else f_not(f))
         f = f_and(fs)
         if any(not a.startswith("present:") for a in atoms_of(f)):
@@ -346,7 +346,7 @@ class Ctx:
         """`e` only tests whether options were given ('aliases' in kwargs, aliases is not None, aliases is not SENTINEL, ...)"""
         if not hasattr(self, "_presence_sub"):
             self._presence_formula(self.M.fn.body[0])
-        f = to_formula(e, self._presence_sub)
+        f = to_formula(self.M.resolve(e), self._presence_sub)
         ats = atoms_of(f)
         return bool(ats) and all(a.startswith("present:") for a in ats)
 
@@ -388,6 +388,34 @@ class Ctx:
                 if w.root_kind == "self" and f.name in ("__init__", "__post_init__") and f.cls is not None and f.cls is not self.draw.cls and not self.repo.is_subclass(self.draw.cls, f.cls.fq):
                     continue  # initialisation of a helper object created during the call, not state that outlives it
                 if w.root_kind in ("self", "classvar", "global"):
+                    bad.append(w)
+        # writes through a local alias of object / class state (`node = self._root; node[k] = v`): core/effects.py files them under 'local'
+        from core.effects import _root_and_path
+
+        for f in funcs:
+            if isinstance(f.node, ast.Lambda) or f.cls is None or not f.params or f.is_staticmethod:
+                continue
+            selfname = f.params[0].arg
+            helper_cls = f.cls is not self.draw.cls and not self.repo.is_subclass(self.draw.cls, f.cls.fq)
+            rooted: dict[str, str] = {}
+            for _ in range(4):
+                for n in own_nodes(f.node):
+                    if isinstance(n, ast.Assign) and len(n.targets) == 1 and isinstance(n.targets[0], ast.Name):
+                        root, path = _root_and_path(n.value)
+                        if isinstance(root, ast.Name) and root.id == selfname and path and path[0] != "[]" and not isinstance(n.value, ast.Call):
+                            rooted.setdefault(n.targets[0].id, path[0])
+                        elif isinstance(root, ast.Name) and root.id == selfname and path and path[0] != "[]" and isinstance(n.value, ast.Call) and isinstance(n.value.func, ast.Attribute) and n.value.func.attr in ("setdefault", "get"):
+                            rooted.setdefault(n.targets[0].id, path[0])
+                        elif isinstance(root, ast.Name) and root.id in rooted and (path or isinstance(n.value, ast.Name)):
+                            rooted.setdefault(n.targets[0].id, rooted[root.id])
+            for w in E.writes(f):
+                if w.root_kind == "local" and w.root in rooted and not w.fresh:
+                    attr = rooted[w.root]
+                    if helper_cls and not E._is_class_level(f, attr):
+                        continue
+                    if not helper_cls and f.name in ("__init__", "__post_init__"):
+                        continue
+                    w.root_kind, w.root, w.field = ("classvar" if E._is_class_level(f, attr) else "self"), (f.cls.name if E._is_class_level(f, attr) else selfname), attr
                     bad.append(w)
         for w in bad:
             self.res.add("C17.R6", self.repo.key(w.fi, stmt_of(w.node)), False, f"`{header(stmt_of(w.node))}` keeps state on {w.root_kind} `{w.root}.{w.field}` while computing labels: a later visualize call with other aliases can be served stale labels", where(w.fi, w.node), kind="effect")
